@@ -52,7 +52,7 @@ def returning_words(prog):
     return ret
 
 
-def must_call(prog, target, sites, gensites=()):
+def must_call(prog, target, sites, gensites=(), start_false=()):
     """for each site (word, pc): has word `target` completed on every path from the entry word to the site?
     forward must-analysis, meet = AND; paths through no-return natives / non-returning words do not count"""
     nr = noreturn_natives(prog)
@@ -112,6 +112,8 @@ def must_call(prog, target, sites, gensites=()):
     entry = prog.entries[0][1]
     fin = {w: True for w in prog.words}
     fin[entry] = False
+    for w in start_false:       # the fact is required to be (re-)established inside these words
+        fin[w] = False
     ch = True
     while ch:
         ch = False
